@@ -379,7 +379,7 @@ def rule_complete(ctx):
         return ctx.bad(R, "complete_basic_block/false-target-patch", "expected one assignment to false_index, found %d" % len(asg))
     cs = [fact_str(c).replace(" ", "") for c in (conditions_to(fn["body"], asg[0]) or []) if c[0] != "loop"]
     want1 = "(letSome(IfThenElse{cond,true_index,false_index,..})=basic_blocks[i].statements_mut().last_mut())"
-    ok = len(cs) == 3 and cs[0].replace("cond,", "").replace("cond", "") == want1.replace("cond,", "") and set(cs[1:]) == {"(j!=*true_index)", "false_index.is_none()"}
+    ok = len(cs) == 3 and cs[0].replace("cond,", "").replace("cond", "") == want1.replace("cond,", "") and set(cs[1:]) in ({"!(j==*true_index)", "!false_index.is_some()"}, {"!(*true_index==j)", "!false_index.is_some()"})
     ctx.check(R, "complete_basic_block/false-target-patch/guard", ok, "guards: %s" % cs, site(LF, asg[0]))
     ctx.check(R, "complete_basic_block/false-target-patch/value", render(asg[0]["r"]).replace(" ", "") == "Some(j)", render(asg[0]["r"]), site(LF, asg[0]))
 
